@@ -39,6 +39,8 @@ def shards(tier, seed):
     out.append(("child_opt_toy", dict(kind="toy", key=sel[0].curve.key(), part=0, parts=4, ndig=16, _pyopt="opt+hashseed")))
     out.append(("child_opt_prod", dict(kind="prod", cname="SECP112r2", rounds=1, _pyopt="opt")))
     out.append(("child_opt_enc", dict(kind="enc", cname="NIST192p", rounds=1, _pyopt="opt+hashseed")))
+    out.append(("child_bb_enc", dict(kind="enc", cname="SECP160r1", rounds=1, _pyopt="bb")))
+    out.append(("child_bb_prod", dict(kind="prod", cname="NIST192p", rounds=1, _pyopt="bb+werror")))
     for c in lib.pick_curves(tier, seed, extra=3):
         out.append(("prod_%s" % c.name, dict(kind="prod", cname=c.name, rounds=2 if q else 12)))
         out.append(("enc_%s" % c.name, dict(kind="enc", cname=c.name, rounds=1 if q else 6)))
